@@ -454,6 +454,12 @@ def r_state(g, m, which):
         if not m.cfg.rr:
             return ('set_relocated_name-on-non-rr', {'op': 'set_relocated_name', 'name': 'XX', 'rr_name': 'xx'}, False)
         return None
+    if which == 'relocated-name-bad-iso':
+        # refused for its ISO9660 name; the Rock Ridge name given with it must not stick
+        if not m.cfg.rr or m.cfg.level == 4 or m.relocation_active() or getattr(m, 'rr_moved_name', None):
+            return None
+        bad = 'lower-case' if m.cfg.level > 1 else 'TOOLONGNAME'
+        return ('set_relocated_name-bad-iso-name', {'op': 'set_relocated_name', 'name': bad, 'rr_name': 'leaked.name'}, False)
     if which == 'new-bad-args':
         return ('new-refused-then-new', {'op': 'x_new_bad'}, False)
     if which == 'query-missing':
@@ -492,7 +498,7 @@ for w in ('missing-boot-file', 'rm-without', 'bad-media', 'floppy-size', 'hdemul
     RECIPES.append(('add_eltorito', r_eltorito, w))
 for w in ('without-eltorito', 'bad-geometry', 'mac-without-efi', 'bad-part-entry'):
     RECIPES.append(('add_isohybrid', r_isohybrid, w))
-for w in ('new-twice', 'open-twice', 'relocated-name', 'query-missing', 'read-dir', 'new-bad-args'):
+for w in ('new-twice', 'open-twice', 'relocated-name', 'query-missing', 'read-dir', 'new-bad-args', 'relocated-name-bad-iso'):
     RECIPES.append(('state', r_state, w))
 
 
@@ -624,6 +630,8 @@ def run_case(i, seed, tier):
             return False
         if which in ('rr-missing', 'rr-slash', 'rr-too-long', 'rr-dup') and not c.rr:
             return False
+        if which == 'relocated-name-bad-iso' and (not c.rr or c.level == 4):
+            return False
         if which in ('rr-too-long-reloc', 'iso-dup-reloc', 'reloc-name-taken') and (not c.rr or c.level == 4):
             return False
         if which in ('rr-on-plain', 'file-mode-plain') and c.rr:
@@ -698,6 +706,25 @@ def run_case(i, seed, tier):
             tail = [{'op': 'rm_hard_link', '%s_path' % ns_: p_} for ns_, p_ in s.model.names_of(node.cid)]
             ops = ops[:inject_at] + tail + [o for o in ops[inject_at:] if o['op'] not in ('add_eltorito',)]
             counters['eltorito_refusal_followed_by_unlink'] = 1
+    if inst is not None and which == 'relocated-name-bad-iso':
+        # what the leaked name would show in: the relocation directory of a later deep directory
+        tail = []
+        p_ = ''
+        for d_ in range(8):
+            p_ += '/RL%d' % d_
+            tail.append({'op': 'add_directory', 'iso_path': p_, 'rr_name': 'rl%d' % d_})
+        ops = ops[:inject_at] + tail + ops[inject_at:]
+    if inst is not None and api == 'add_hard_link' and inst[1].get('old') and rng.random() < 0.6:
+        # later behaviour: the file the refused link pointed at is removed (all names, or by rm_file)
+        ons_, op_ = inst[1]['old']
+        node = s.model.ns[ons_].get(op_)
+        if node is not None and node.kind == 'file' and node.cid is not None and node.cid != 'catalog' and not s.model.boot_refs(node.cid):
+            if rng.random() < 0.5:
+                tail = [{'op': 'rm_file', '%s_path' % ons_: op_}]
+            else:
+                tail = [{'op': 'rm_hard_link', '%s_path' % n2: p2} for n2, p2 in s.model.names_of(node.cid)]
+            ops = ops[:inject_at] + tail + ops[inject_at:]
+            counters['hard_link_refusal_followed_by_removal'] = 1
     s.close()
     if inst is None:
         return {'verdict': 'held', 'violations': [], 'nontrivial': False, 'shape': 'na:%s:%s' % (api, which), 'sample': None,
